@@ -2,7 +2,7 @@
 (* Focus C12: all five commands x buffering flag x destination unknown /      *)
 (* awake / sleeping, followed by wakes of the sleeping destination; junk.     *)
 EXTENDS MySensors
-Kids == (0 :> ChildV(6, EmptyFn))
+Kids == (0 :> ChildV(6, Vals1(0, "a")))      \* the node last reported "a": a command carrying "a" is still a command
 Reg == (1 :> NodeC("2.0", FALSE, Kids)) @@ (2 :> NodeC("2.0", TRUE, Kids))
 Dest == <<1, 2, 3>>
 Sends(b) == [i \in 1..3 |-> Send_(Dest[i], 255, 0, 17, P20, b)]
